@@ -6,6 +6,7 @@ from vlib import Case, Rng
 
 ID = "C02"
 PROPS_MODULE = "AmqModel.Props.C02"
+EXTRA_PROPS_MODULES = ["AmqModel.Props.RoundTrip"]      # sender o receiver: the body frames of every publish, enveloped and concatenated, are cut by the decode loop into exactly those frames again
 NONTRIVIAL_RULE = "publish with >= 2 body frames, or a body length that is an exact multiple of the per-frame payload limit"
 MODEL_SCOPE = "src/channel.rs basic_publish, exchange.rs Exchange::publish, io_loop/channel_handle.rs send_content and Channel0Handle::new (payload limit from the negotiated frame_max), io_loop_handle.rs send_content_header/body; what reaches the I/O thread's queue is what write_to_stream later puts on the wire unchanged (C01)"
 ASSUMPTIONS = ["the bytes a handle submits are appended to the output buffer unchanged and in order (C01 theorems + machine correspondence)"]
